@@ -311,4 +311,97 @@ def WState.retained (s : WState) : List Bytes := s.kept.map fun i => (s.heap[i]?
 /-- the byte stream a subscriber of the retaining writer receives -/
 def subscriberStream (a : Alloc) (fs : List Frame) : Bytes := (sendAll a (fs.map encode)).retained.flatten
 
+/-! ## the goroutines of a stream: logging goroutines, the unbuffered channel `framec`, the writer goroutine
+
+`NewStream` starts ONE goroutine running `Stream.loop`: `select { case f := <-s.framec: s.w.Write(f); case <-s.closec: return }`.
+`framec` is unbuffered, so a send `s.framec <- f` of a logging goroutine completes exactly when the writer goroutine,
+sitting in its `select`, receives `f`; the writer then is inside `Write(f)` until that returns and only then comes back
+to the `select`. Every other sender stays blocked in its own send meanwhile. `Close()` is a rendezvous on `closec`, which
+the writer also only takes in its `select`.
+
+The state below is what this needs: per logging goroutine the sequence of channel sends it still has to make (its
+program order: `sendHeader`…`sendHeader`, then one `sendData` per `Read`), the writer goroutine's program counter, and
+the arguments of the `Write` calls that have returned. `α` is what ONE channel send carries (`Bytes` for the code; the
+theorems about orders are parametric in it). Which sender the writer meets next is not determined (Go's `select`/run
+queue, blocked senders are served in arrival order): `Step.take i` for any `i` whose goroutine has a send pending. -/
+
+inductive WPc (α : Type)
+  | idle                -- in `select`
+  | writing (c : α)     -- received `c` from `framec`, inside `s.w.Write(c)`
+  | exited              -- received from `closec` and returned
+  deriving DecidableEq, Repr
+
+/-- the slice the writer goroutine holds and has not finished writing -/
+def WPc.inflight {α : Type} : WPc α → List α
+  | .writing c => [c]
+  | _ => []
+
+structure Sys (α : Type) where
+  senders : List (List α)
+  writer : WPc α
+  out : List α
+  deriving DecidableEq
+
+inductive Step
+  | take (i : Nat)    -- rendezvous on `framec` between logging goroutine `i` and the writer
+  | write             -- `s.w.Write(f)` returns, the writer is back in `select`
+  | close             -- `Close()`: rendezvous on `closec`
+  deriving DecidableEq, Repr
+
+def Sys.init {α : Type} (senders : List (List α)) : Sys α := ⟨senders, .idle, []⟩
+
+/-- `take i`: enabled when the writer is in `select` and goroutine `i` has a send pending -/
+def Sys.take {α : Type} (s : Sys α) (i : Nat) : Option (Sys α) :=
+  match s.writer, s.senders[i]? with
+  | .idle, some (c :: m) => some { s with senders := s.senders.set i m, writer := .writing c }
+  | _, _ => none
+
+def Sys.write {α : Type} (s : Sys α) : Option (Sys α) :=
+  match s.writer with
+  | .writing c => some { s with writer := .idle, out := s.out ++ [c] }
+  | _ => none
+
+def Sys.close {α : Type} (s : Sys α) : Option (Sys α) :=
+  match s.writer with
+  | .idle => some { s with writer := .exited }
+  | _ => none
+
+/-- one transition; `none` = the step is not enabled in `s` -/
+def Sys.step {α : Type} (s : Sys α) : Step → Option (Sys α)
+  | .take i => s.take i
+  | .write => s.write
+  | .close => s.close
+
+def Sys.exec {α : Type} (s : Sys α) : List Step → Option (Sys α)
+  | [] => some s
+  | st :: rest =>
+    match s.step st with
+    | some s' => s'.exec rest
+    | none => none
+
+/-- every logging goroutine has made all its sends and the writer is not inside `Write` -/
+def Sys.quiescent {α : Type} (s : Sys α) : Bool := s.senders.all List.isEmpty && s.writer.inflight.isEmpty
+
+/-- the steps of a run in which the writes were, in order, for the senders `ord` -/
+def schedSteps (ord : List Nat) : List Step := ord.flatMap fun i => [.take i, .write]
+
+/-- Replay an observed order of writes (harness: which message each `Write` belonged to), then `Close()`:
+the written slices, or `none` when that order is not a run of the system to quiescence. -/
+def replayWrites {α : Type} (senders : List (List α)) (ord : List Nat) : Option (List α) :=
+  match (Sys.init senders).exec (schedSteps ord ++ [.close]) with
+  | some s => if s.quiescent then some s.out else none
+  | none => none
+
+/-- What one `sendHeader` / `sendData` call puts on the channel. `whole = true` is the code (regenerated fact
+`Generated.Marbl.framecSendsWhole`: each of these functions makes ONE send, of the buffer it built with `newFrame` and
+filled completely). `whole = false` is the variant that hands a data frame over as descriptor and payload in two
+sends; it is kept to show what the fact is needed for (`split_send_tears_counterexample`). -/
+def chunksOf (whole : Bool) (f : Frame) : List Bytes :=
+  if whole then [encode f] else
+  match f with
+  | .data mt id i t p => [frameHead 2 mt id ++ (be32 i ++ [if t then 1 else 0] ++ be32 p.length), p]
+  | h => [encode h]
+
+def senderChunks (whole : Bool) (m : List Frame) : List Bytes := m.flatMap (chunksOf whole)
+
 end Martian.Marbl
